@@ -121,7 +121,6 @@ func NewRec(prop, rule string) *Rec {
 		extra:    map[string]interface{}{},
 		known:    map[string]knownEntry{},
 		start:    time.Now(),
-		journal:  os.Getenv("VERIF_JOURNAL"),
 	}
 	if p := os.Getenv("VERIF_KNOWN"); p != "" {
 		if b, err := os.ReadFile(p); err == nil {
@@ -139,6 +138,10 @@ func NewRec(prop, rule string) *Rec {
 	}
 	return r
 }
+
+// EnableJournal turns on the pre-case journal (one small file write per case);
+// used by the checks whose failure mode is a crash of the whole process.
+func (r *Rec) EnableJournal() { r.journal = os.Getenv("VERIF_JOURNAL") }
 
 // IsKnown reports whether key is listed as a known (unrepaired) finding, so a
 // generator can exclude that class by construction.
